@@ -223,6 +223,112 @@ func VerifRendezvousHistory() {
 	verif.Cover("two-removals", removals >= 2)
 }
 
+// VerifRendezvousTopN: a request for k nodes returns the first min(k, n) nodes of
+// the full descending order, for every k (case split 0..n+1) on a hash of
+// 4 | 5 nodes -- in particular odd k >= 3 below the hash size. The insertion
+// order is fixed: scores and weights are unknowns per label, so permuting the
+// insertion order is a relabelling (the other harnesses vary it).
+func VerifRendezvousTopN() {
+	verif.Option("hrw_score_uninterpreted", 1)
+	n := verif.Bound("nodes_topn", 4, 5)
+	weights := verifRWeights(n)
+	sc := verifRNewScores(weights)
+	rh := sc.newHash()
+	for i := 0; i < n; i++ {
+		rh.AddNode(verifRLabels[i], weights[verifRLabels[i]])
+	}
+	full := rh.GetOrderedNodes(verifRKey, n)
+	verifRCheckSorted(rh, full)
+	k := verif.Choice("request", n+2)
+	lk := rh.GetOrderedNodes(verifRKey, k)
+	want := k
+	if want > n {
+		want = n
+	}
+	verif.Assert("truncated-length", len(lk) == want)
+	if len(lk) != want {
+		return
+	}
+	verif.Assert("truncated-is-prefix", verifRSame(verifRLabelsOf(lk), verifRLabelsOf(full)[:want]))
+	for i := 0; i+1 < len(lk); i++ {
+		verif.Assert("descending-score", lk[i].Score(verifRKey) >= lk[i+1].Score(verifRKey))
+	}
+	verif.Cover("odd-request-below-hash-size", k == 3)
+	verif.Cover("request-above-hash-size", k > n)
+}
+
+// VerifRendezvousRepeatedLookups: the list of a key depends on the current node
+// set only, not on what was looked up before: the key is looked up, then 2 | 3
+// membership changes happen with no lookup in between (remove a present node or
+// add an absent one, case split -- e.g. replace one node by another, which
+// keeps the node count), then the SAME key is looked up again. The second list
+// must be the current nodes in descending score order, and the nodes present at
+// both lookups must keep their relative order (removal only removes, addition
+// only inserts). Insertion order fixed, as in VerifRendezvousTopN.
+func VerifRendezvousRepeatedLookups() {
+	verif.Option("hrw_score_uninterpreted", 1)
+	n := verif.Bound("nodes_repeat", 3, 4)
+	changes := verif.Bound("changes_between_lookups", 2, 3)
+	universe := n + 1
+	weights := verifRWeights(universe)
+	sc := verifRNewScores(weights)
+	rh := sc.newHash()
+	present := make([]bool, universe)
+	count := 0
+	for i := 0; i < n; i++ {
+		rh.AddNode(verifRLabels[i], weights[verifRLabels[i]])
+		present[i] = true
+		count++
+	}
+	first := rh.GetOrderedNodes(verifRKey, count)
+	verifRCheckSorted(rh, first)
+	before := verifRLabelsOf(first)
+	was := append([]bool(nil), present...)
+	for c := 0; c < changes; c++ {
+		t := verif.Choice("changed_node", universe+1)
+		if t == universe {
+			continue // no change in this slot: any number of changes up to the bound
+		}
+		if present[t] {
+			rh.RemoveNode(verifRLabels[t])
+			present[t] = false
+			count--
+		} else {
+			rh.AddNode(verifRLabels[t], weights[verifRLabels[t]])
+			present[t] = true
+			count++
+		}
+	}
+	second := rh.GetOrderedNodes(verifRKey, count)
+	verifRCheckSorted(rh, second)
+	after := verifRLabelsOf(second)
+	// restrict both lists to the nodes present at both lookups
+	var keptBefore, keptAfter []string
+	replaced := false
+	for _, l := range before {
+		for i := 0; i < universe; i++ {
+			if verifRLabels[i] == l && was[i] && present[i] {
+				keptBefore = append(keptBefore, l)
+			}
+		}
+	}
+	for _, l := range after {
+		for i := 0; i < universe; i++ {
+			if verifRLabels[i] == l && was[i] && present[i] {
+				keptAfter = append(keptAfter, l)
+			}
+		}
+	}
+	for i := 0; i < universe; i++ {
+		if was[i] != present[i] {
+			replaced = true
+		}
+	}
+	verif.Assert("other-nodes-keep-their-relative-order", verifRSame(keptBefore, keptAfter))
+	verif.Cover("node-set-changed-node-count-unchanged", replaced && count == n)
+	verif.Cover("node-count-changed", count != n)
+}
+
 // VerifRendezvousMinimalDisruption: removing a node only removes it from the
 // key's list; adding one only inserts it.
 func VerifRendezvousMinimalDisruption() {
